@@ -96,6 +96,11 @@ class MixedNormalAggregator(Aggregator):
 
         loc = y["loc"]
         scale = y["scale"]
+        # integer-typed predictions would overflow (silently) when squared
+        if not np.issubdtype(loc.dtype, np.floating):
+            loc = loc.astype(np.float64)
+        if not np.issubdtype(scale.dtype, np.floating):
+            scale = scale.astype(np.float64)
 
         mean_loc = self._np.average(loc, weights=weights, axis=0)
         agg = {"loc": mean_loc}
